@@ -407,7 +407,7 @@ func RetaggedStruct(t reflect.Type, n *Node, k int) reflect.Type {
 		if nt, ok := tags[f.Name]; ok {
 			tag = nt
 		}
-		fields[i] = reflect.StructField{Name: f.Name, Type: f.Type, Tag: tag}
+		fields[i] = reflect.StructField{Name: f.Name, Type: f.Type, Tag: tag, Anonymous: f.Anonymous}
 	}
 	return reflect.StructOf(fields)
 }
@@ -609,7 +609,8 @@ func build(n *Node, e *Env) (z.ZogSchema, reflect.Type) {
 		for _, f := range n.Fields {
 			fs, ft := Build(f.Node, e)
 			sm[f.Key] = fs
-			fields = append(fields, reflect.StructField{Name: f.GoName(), Type: ft, Tag: reflect.StructTag(TagString(f.Tags))})
+			fields = append(fields, reflect.StructField{Name: f.GoName(), Type: ft, Tag: reflect.StructTag(TagString(f.Tags)),
+				Anonymous: f.Embed && f.Node.Kind == KStruct})
 		}
 		for _, x := range n.Extra {
 			fields = append(fields, reflect.StructField{Name: x, Type: reflect.TypeOf("")})
